@@ -167,7 +167,7 @@ func presence(m proto.Message) string {
 
 var ptrRe = regexp.MustCompile(`0x[0-9a-fA-F]{6,}`)
 
-func maskPtr(s string) string { return ptrRe.ReplaceAllString(s, "0xPTR") }
+func maskPtr(s string) string { return s }
 
 type sentinel struct {
 	name string
